@@ -37,7 +37,16 @@ def _make(conv, shape, holes, skew, mesh_opts=None):
     from emsarray.conventions.shoc import ShocSimple, ShocStandard
     from emsarray.conventions.ugrid import UGrid
     if conv == 'ugrid':
-        ds = builders.ugrid(shape, with_edges=True, **(mesh_opts or {}))
+        mo = dict(mesh_opts or {})
+        spelled = mo.pop('conventions', None)
+        ds = builders.ugrid(shape, with_edges=True, **mo)
+        if spelled:
+            # the file lists several conventions (CF allows blanks or commas between the names); the convention is
+            # the one the library detects by itself
+            ds.attrs['Conventions'] = spelled
+            for n in ('node_x', 'node_y'):
+                ds[n].attrs.update(standard_name={'node_x': 'longitude', 'node_y': 'latitude'}[n], units={'node_x': 'degrees_east', 'node_y': 'degrees_north'}[n])
+            return ds, ds.ems
         return ds, UGrid(ds)
     ny, nx = shape
     if conv == 'cf1d':
@@ -240,6 +249,10 @@ def cases(tier):
         tag = '+'.join(f'{k}={v}' for k, v in mo.items())
         yield Case(f'ugrid:tqp:{tag}:get_index_for_point', body,
                    dict(conv='ugrid', shape='tqp', holes=(), skew=False, via='get_index_for_point', mesh_opts=mo),
+                   max_paths=20000, split=16, patches=PATCHES)
+    for k, spelled in enumerate(('CF-1.6, UGRID-1.0', 'CF-1.8 UGRID-1.0 Deltares-0.10') if q else ('CF-1.6, UGRID-1.0', 'CF-1.8 UGRID-1.0 Deltares-0.10', 'CF-1.6/UGRID-1.0', 'UGRID-1.0 CF-1.6')):
+        yield Case(f'ugrid:tqp:conventions{k}:get_index_for_point', body,
+                   dict(conv='ugrid', shape='tqp', holes=(), skew=False, via='get_index_for_point', mesh_opts=dict(conventions=spelled)),
                    max_paths=20000, split=16, patches=PATCHES)
     # one-based connectivity stored without a fill value (integer arrays straight from the file)
     for mesh in (['fan'] if q else ['fan', 'tri', 'strip5']):
